@@ -11,6 +11,9 @@
      scal   - the counter behind the generated names `#scalarset<N>` of scalar-set types; ScalarPerBuilder: it is a member of the
               builder and starts at 0 in every call (the code) - were it shared by all builders, the label a model's first scalar
               set gets would count the scalar sets of earlier calls
+     syms   - names of external functions resolved so far. NoSymbolCache: there is none (the code: every import asks the library
+              it names); with a process-wide cache keyed by the function's name a later import of the same name from a library
+              that lacks it would be accepted
    ResetBeforeReport: the <<EOF>> rule of the comment state leaves the state before it reports (a builder's handle_error may throw)
    A call = (kind, text shape). Calls are atomic here; the interesting interleaving is the ORDER of calls (histories).
    Each call builds its own Document, so the line table `lines` is per call.
@@ -22,10 +25,10 @@
    HistoryIndependent: Result(call, g) = Result(call, G0) for every reachable g.                                     *)
 EXTENDS Integers, Sequences, FiniteSets, TLC, Json
 
-CONSTANTS M, MaxCalls, LlocReset, TypesReset, ResetBeforeReport, ScalarPerBuilder      \* LlocReset: the entry points reset yylloc to the current position (the repaired code); TypesReset: ArrayDecl starts with `types = 0`
+CONSTANTS M, MaxCalls, LlocReset, TypesReset, ResetBeforeReport, ScalarPerBuilder, NoSymbolCache      \* LlocReset: the entry points reset yylloc to the current position (the repaired code); TypesReset: ArrayDecl starts with `types = 0`
 Unknown == (M \div 2) - 1
 
-G0 == [pos |-> 0, lloc |-> <<Unknown, Unknown>>, cond |-> "INITIAL", types |-> 0, pend |-> 0, scal |-> 0]
+G0 == [pos |-> 0, lloc |-> <<Unknown, Unknown>>, cond |-> "INITIAL", types |-> 0, pend |-> 0, scal |-> 0, syms |-> {}]
 
 (* text shapes: sequence of items; "t" = a token of n characters, "nl" = a newline, "err" = the token at which the
    grammar reports a syntax error, "eof" *)
@@ -38,6 +41,8 @@ Shapes == [ ok      |-> <<[k |-> "t", n |-> 3], [k |-> "t", n |-> 1], [k |-> "t"
             dimabort |-> <<[k |-> "t", n |-> 3], [k |-> "dim+", n |-> 1], [k |-> "err", n |-> 1]>>,     \* `int a[int[0,1]][;`: types++ ran, the parse aborts
             array   |-> <<[k |-> "t", n |-> 3], [k |-> "arr", n |-> 1]>>,                              \* `int g[2];` observes the counter
             scalar  |-> <<[k |-> "t", n |-> 3], [k |-> "scl", n |-> 2], [k |-> "t", n |-> 1]>>,                 \* `typedef scalar[2] s_t;` : the generated label is observable in the document
+            extgood |-> <<[k |-> "t", n |-> 3], [k |-> "ext+", n |-> 2], [k |-> "t", n |-> 1]>>,                \* `import "libm.so.6" { double j0(double x); };` - the library has the function
+            extbad  |-> <<[k |-> "t", n |-> 3], [k |-> "ext-", n |-> 2], [k |-> "t", n |-> 1]>>,                \* the same import from a library that lacks it: a diagnostic
             cmteof  |-> <<[k |-> "t", n |-> 1], [k |-> "cmt", n |-> 2]>>,                              \* unterminated comment: <<EOF>> in <comment> resets the condition
             throw   |-> <<[k |-> "t", n |-> 2], [k |-> "cmt", n |-> 2]>> ]                             \* the same with a builder whose handle_error throws (PrettyPrinter): the call leaves the lexer action by exception
 Kinds == DOMAIN Shapes
@@ -56,7 +61,7 @@ RunItems(st, items, i) ==
              g == st.g IN
          IF g.cond = "comment" /\ it.k # "nl"
          THEN RunItems([st EXCEPT !.g.pos = Mod(g.pos + it.n), !.g.lloc = <<g.pos, Mod(g.pos + it.n)>>], items, i + 1)    \* swallowed by the comment
-         ELSE CASE it.k \in {"t", "arr", "dim+", "err", "cmt", "scl"} ->
+         ELSE CASE it.k \in {"t", "arr", "dim+", "err", "cmt", "scl", "ext+", "ext-"} ->
                    LET p2 == Mod(g.pos + it.n)
                        g1 == [g EXCEPT !.pos = p2, !.lloc = <<g.pos, p2>>,
                                        !.types = IF it.k = "dim+" THEN @ + 1 ELSE @,
@@ -65,6 +70,9 @@ RunItems(st, items, i) ==
                    IF it.k = "err" THEN [st1 EXCEPT !.diags = Append(@, Diag(st1, "syntax")), !.out = "abort"]
                    ELSE IF it.k = "arr" THEN RunItems([st1 EXCEPT !.arrdim = (IF TypesReset THEN 0 ELSE g1.types) + 1,
                                                                   !.g.types = IF TypesReset THEN 0 ELSE @], items, i + 1)      \* { types = 0; } ... type_array_of_size(types + 1)
+                   ELSE IF it.k = "ext+" THEN RunItems([st1 EXCEPT !.g.syms = IF NoSymbolCache THEN @ ELSE @ \cup {"f"}], items, i + 1)
+                   ELSE IF it.k = "ext-" THEN (IF ~NoSymbolCache /\ "f" \in g1.syms THEN RunItems(st1, items, i + 1)
+                                               ELSE RunItems([st1 EXCEPT !.diags = Append(@, Diag(st1, "undefined symbol"))], items, i + 1))
                    ELSE IF it.k = "scl" THEN RunItems([st1 EXCEPT !.labels = Append(@, g1.scal), !.g.scal = @ + 1], items, i + 1)
                    ELSE RunItems(st1, items, i + 1)
               [] it.k = "nl" ->
@@ -98,7 +106,7 @@ Spec == Init /\ [][Next]_vars
 
 HistoryIndependent == last.kind # "" => Result(last.kind, last.before) = Result(last.kind, G0)
 (* which global made the difference, for the counterexample reader *)
-Sensitive(k, gg) == {f \in {"pos", "lloc", "cond", "types", "scal"} : Result(k, [G0 EXCEPT ![f] = gg[f]]) # Result(k, G0)}
+Sensitive(k, gg) == {f \in {"pos", "lloc", "cond", "types", "scal", "syms"} : Result(k, [G0 EXCEPT ![f] = gg[f]]) # Result(k, G0)}
 EmitHist == PrintT(<<"EMIT", ToJson([h |-> hist, indep |-> HistoryIndependent,
                                      why |-> IF last.kind = "" THEN {} ELSE Sensitive(last.kind, last.before)])>>)
 View == <<g, Len(hist)>>
